@@ -51,6 +51,27 @@ def _run(R):
                     ("dict", "list", "set", "WeakKeyDictionary", "WeakValueDictionary", "OrderedDict", "defaultdict", "LRUCache")):
                 mod_tables.update(targets)
         used = sorted(set(n.id for n in ast.walk(front.node) if isinstance(n, ast.Name) and n.id in mod_tables))
+        # a table keyed by the function object itself is a memo per function, which shares nothing between functions
+        fparam = front.node.args.args[0].arg if front.node.args.args else None
+        def keyed_by_fn(tname):
+            uses = [n for n in ast.walk(front.node) if isinstance(n, ast.Name) and n.id == tname]
+            keys = []
+            for n in ast.walk(front.node):
+                if isinstance(n, ast.Subscript) and isinstance(n.value, ast.Name) and n.value.id == tname:
+                    keys.append(q.src(n.slice))
+                if isinstance(n, ast.Call) and isinstance(n.func, ast.Attribute) and isinstance(n.func.value, ast.Name) and n.func.value.id == tname:
+                    if n.func.attr in ("get", "setdefault", "pop") and n.args:
+                        keys.append(q.src(n.args[0]))
+                    else:
+                        keys.append("<%s>" % n.func.attr)
+            fal = set([fparam]) | set(t.id for n in ast.walk(front.node) if isinstance(n, ast.Assign) and isinstance(n.value, ast.Name) and n.value.id == fparam
+                                      for t in n.targets if isinstance(t, ast.Name))
+            for a in list(fal - set([fparam])):
+                # the alias is bound exactly once
+                if sum(1 for n in ast.walk(front.node) if isinstance(n, ast.Name) and n.id == a and isinstance(n.ctx, ast.Store)) != 1:
+                    fal.discard(a)
+            return bool(keys) and len(keys) == len(uses) and all(k in fal for k in keys)
+        used = [t for t in used if not keyed_by_fn(t)]
         R.check(not used, "C15.FRESH-WRAPPER", front.qualname, R.site(front),
                 "fn.asyncio is built from the function it is asked for (no table shared between functions)",
                 "%s takes the coroutine function from the module-level table %s: two asynq functions that share the key (closures made by one factory "
